@@ -184,7 +184,7 @@ def _explore(out, tier, seed, facts, replay):
     import verif.aggregator
     rng = random.Random(seed + 505)
     alphabet = [-2.0, 0.0, 0.5, 1.0, 3.0]
-    vecs = []
+    vecs = [([0.1] * 7, [3.0, 1.0, 0.5, 0.4, 0.0, 0.0, 0.0])]      # corpus: the input of the recorded zero-variance-rounding findings runs first
     for L in range(1, 4):                       # exhaustive small vectors (pairs over the alphabet)
         for o in itertools.product(alphabet, repeat=L):
             for f in itertools.product(alphabet, repeat=L):
@@ -209,6 +209,9 @@ def _explore(out, tier, seed, facts, replay):
         elif kind < 0.64:
             o = [-rng.choice([0.5, 1.0, 2.0, 3.0, 7.5]) for _ in range(L)]   # all negative (ratios positive)
             f = [-rng.choice([0.5, 1.0, 2.0, 3.0, 7.5]) for _ in range(L)] if rng.random() < 0.6 else list(o)
+        elif kind < 0.68 and L >= 3:
+            o = [rng.choice([0.1, 0.7, 1.1, -0.3])] * L       # constant observations whose mean is NOT exactly that constant in floating point
+            f = [rng.choice(alphabet + [0.2, 0.4]) for _ in range(L)]
         else:
             o = [rng.choice(alphabet + [rng.randint(-20, 20) / 4.0]) for _ in range(L)]
             f = [rng.choice(alphabet + [rng.randint(-20, 20) / 4.0]) for _ in range(L)]
@@ -291,7 +294,8 @@ def _explore(out, tier, seed, facts, replay):
                 if not (math.isnan(got1) or math.isinf(got1)):
                     # undefined by the textbook but numerically defined up to rounding is not a finding
                     if abs(got1) < 1e12:
-                        out.violation("undefined-gives-number:%s" % c, "%s(obs=%r, fcst=%r, agg=%s) = %r where the definition is undefined"
+                        rounding_ = len(set(o)) == 1 and float(np.mean(np.array(o))) != o[0]      # constant obs whose float mean is not the constant
+                        out.violation(("zero-variance-rounding:%s" if rounding_ else "undefined-gives-number:%s") % c, "%s(obs=%r, fcst=%r, agg=%s) = %r where the definition is undefined"
                                       % (c, o, f, use, got1), {"metric": c, "obs": o, "fcst": f, "agg": use})
             elif math.isnan(got1) or not close(got1, want, 1e-9):
                 if math.isnan(got1) and abs(want) > 1e12:
